@@ -8,6 +8,8 @@ from . import terms as T
 from .terms import Term
 from .interp import Cond
 
+import os
+DEBUG = bool(os.environ.get('SYMX_DEBUG'))
 PI_LO = Fraction(3141592653589793, 10**15)
 PI_HI = Fraction(3141592653589794, 10**15)
 
@@ -329,61 +331,16 @@ def build_rules(extra_rules=()):
                 subst[i] = s_cur if k > 0 else T.p_neg(s_cur)
             else:
                 subst[i] = c_cur
-    # sqrt
-    for i, info in enumerate(T.ATOM_LIST):
-        if info[0] == "fn" and info[1] == "sqrt":
-            n, d = T.nf(info[2][0])
-            if T.p_is_const(d):
-                rules.append((i, 2, n))
+    # sqrt (definitional) and context rules
+    rules += list(T.CTX.auto_rules)
+    have = {(a, k) for a, k, _ in extra_rules}
+    rules += [r for r in T.CTX.rules if (r[0], r[1]) not in have]
     for r in extra_rules:
         rules.append(r)
     return subst, rules
 
 
-def reduce_poly(p, subst, rules, maxiter=60):
-    if subst:
-        p = T.p_subst(p, subst)
-    rmap = {a: (k, rep) for a, k, rep in rules}
-    for _ in range(maxiter):
-        changed = False
-        out = {}
-        for m, c in p.items():
-            hit = None
-            for v, e in m:
-                r = rmap.get(v)
-                if r is not None and e >= r[0]:
-                    hit = (v, e, r)
-                    break
-            if hit is None:
-                v0 = out.get(m)
-                if v0 is None:
-                    out[m] = c
-                else:
-                    v0 += c
-                    if v0 == 0:
-                        del out[m]
-                    else:
-                        out[m] = v0
-                continue
-            changed = True
-            v, e, (k, rep) = hit
-            rest = tuple((a, b) if a != v else (a, e % k) for a, b in m)
-            rest = tuple(x for x in rest if x[1] > 0)
-            t = T.p_mul({rest: c}, T.p_pow(rep, e // k))
-            for m2, c2 in t.items():
-                v0 = out.get(m2)
-                if v0 is None:
-                    out[m2] = c2
-                else:
-                    v0 += c2
-                    if v0 == 0:
-                        del out[m2]
-                    else:
-                        out[m2] = v0
-        p = out
-        if not changed:
-            break
-    return p
+reduce_poly = T.reduce_poly
 
 
 class Verdict:
@@ -490,20 +447,37 @@ def check_bound(resid_poly, box, tol, den_poly=None, timeout_ms=10000, max_split
     t0 = time.time()
     work = [dict(box)]
     nq = 0
+    if DEBUG:
+        print("check_bound: %d monomials, %d vars, degree %d, tol %s" % (len(resid_poly), len(box), T.p_degree(resid_poly), float(tol)), flush=True)
     while work:
         b = work.pop()
-        # LRA relaxation: each monomial an independent variable within its interval bounds
+        # LRA relaxation: each monomial an independent variable within its interval bounds.  Because the relaxed
+        # variables are independent, summing the interval contributions of a bucket of monomials first is an
+        # equivalent (not weaker) query; z3 gets <= 32 bucket variables instead of thousands.
         s = z3.Solver()
         s.set("timeout", int(timeout_ms))
-        terms = []
+        NB = 32
+        blo = [Fraction(0)] * NB
+        bhi = [Fraction(0)] * NB
+        const = Fraction(0)
         for k, (m, c) in enumerate(resid_poly.items()):
-            lo, hi = mono_bounds(m, b)
             if m == ():
-                terms.append(zfrac(c))
+                const += c
+                continue
+            lo, hi = mono_bounds(m, b)
+            if c >= 0:
+                blo[k % NB] += c * lo
+                bhi[k % NB] += c * hi
+            else:
+                blo[k % NB] += c * hi
+                bhi[k % NB] += c * lo
+        terms = [zfrac(const)]
+        for k in range(NB):
+            if blo[k] == 0 and bhi[k] == 0:
                 continue
             v = z3.Real("m%d" % k)
-            s.add(v >= zfrac(lo), v <= zfrac(hi))
-            terms.append(zfrac(c) * v)
+            s.add(v >= zfrac(blo[k]), v <= zfrac(bhi[k]))
+            terms.append(v)
         r = z3.Sum(terms) if terms else z3.RealVal(0)
         if den_poly is not None:
             dlo, dhi = poly_range(den_poly, b)
@@ -527,17 +501,18 @@ def check_bound(resid_poly, box, tol, den_poly=None, timeout_ms=10000, max_split
             centre = {v: float((lo + hi) / 2) for v, (lo, hi) in b.items()}
             return Verdict("undecided", "lra-relaxation(%d boxes)" % nq, time.time() - t0, model=centre)
         best = None
-        for v, (lo, hi) in b.items():
-            w = hi - lo
-            if w == 0:
+        acc = {}
+        for m, c in resid_poly.items():
+            if not m:
                 continue
-            # contribution: width of residual range attributable to v
-            b2 = dict(b)
-            mid = (lo + hi) / 2
-            b2[v] = (mid, mid)
-            l1, h1 = poly_range(resid_poly, b)
-            l2, h2 = poly_range(resid_poly, b2)
-            gain = (h1 - l1) - (h2 - l2)
+            lo_m, hi_m = mono_bounds(m, b)
+            bm = abs(c) * max(abs(lo_m), abs(hi_m))
+            for v, e in m:
+                acc[v] = acc.get(v, 0) + bm
+        for v, (lo, hi) in b.items():
+            if hi - lo == 0 or v not in acc:
+                continue
+            gain = acc[v]
             if best is None or gain > best[0]:
                 best = (gain, v)
         if best is None:
@@ -552,3 +527,106 @@ def check_bound(resid_poly, box, tol, den_poly=None, timeout_ms=10000, max_split
         b2[v] = (mid, hi)
         work += [b1, b2]
     return Verdict("holds", "lra-relaxation(%d boxes)" % nq, time.time() - t0)
+
+
+def entails(pc, cond, pol=True, assumptions=(), timeout_ms=3000):
+    """True iff  assumptions & pc  =>  (cond == pol)  is proved (unsat of the negation)."""
+    z = Z()
+    fs = []
+    atoms = set()
+    for a, b in list(assumptions) + list(pc) + [(cond, not pol)]:
+        f, side = z.cond(a, b)
+        fs.append(f)
+        fs += side
+        cond_atoms(a, atoms)
+    fs += atom_axioms(z, atoms)
+    rs, _, _ = check(fs, timeout_ms)
+    return rs == "unsat"
+
+
+def sup_threshold(pc, term, candidates, assumptions=()):
+    """smallest candidate T with pc => term <= T (None if none is implied)"""
+    for c in candidates:
+        if entails(pc, Cond("cmp", term, T.Const(c), "ole"), True, assumptions):
+            return c
+    return None
+
+
+def enclose_trig(p, nterms=4, tag="xe"):
+    """Replace every sin/cos atom of polynomial p by its Taylor polynomial in the argument plus a Lagrange remainder
+    xi*u^n/n!, |xi|<=1 (valid for all real u).  Returns (poly, xi_atoms)."""
+    from math import factorial
+    sub = {}
+    xis = []
+    for v in T.p_vars(p):
+        info = T.ATOM_LIST[v]
+        if info[0] == "fn" and info[1] in ("sin", "cos"):
+            n, d = T.nf(info[2][0])
+            if not T.p_is_const(d):
+                continue
+            u = n
+            xi_t = T.Sym("%s!%s%d" % (tag, info[1], v))
+            xi = T.nf(xi_t)[0]
+            (xm, _), = xi.items()
+            xis.append(xm[0][0])
+            acc = {}
+            if info[1] == "sin":
+                for k in range(nterms):
+                    acc = T.p_add(acc, T.p_scale(T.p_pow(u, 2 * k + 1), Fraction((-1) ** k, factorial(2 * k + 1))))
+                acc = T.p_add(acc, T.p_scale(T.p_mul(xi, T.p_pow(u, 2 * nterms + 1)), Fraction(1, factorial(2 * nterms + 1))))
+            else:
+                for k in range(nterms):
+                    acc = T.p_add(acc, T.p_scale(T.p_pow(u, 2 * k), Fraction((-1) ** k, factorial(2 * k))))
+                acc = T.p_add(acc, T.p_scale(T.p_mul(xi, T.p_pow(u, 2 * nterms)), Fraction(1, factorial(2 * nterms))))
+            sub[v] = acc
+    if sub:
+        p = T.p_subst(p, sub)
+    return p, xis
+
+
+def sqrt_rules():
+    return list(T.CTX.auto_rules)
+
+
+def box_for(p_list, sym_box, default=None):
+    """box over all atoms of the given polynomials: symbols from sym_box(name) -> (lo,hi); sqrt atoms from the range
+    of their argument; returns None if some atom cannot be bounded"""
+    box = {}
+    todo = set()
+    for p in p_list:
+        todo |= T.p_vars(p)
+    pending = list(todo)
+    order = []
+    while pending:
+        v = pending.pop()
+        if v in box or v in order:
+            continue
+        info = T.ATOM_LIST[v]
+        if info[0] == "sym":
+            b = sym_box(info[1])
+            if b is None:
+                return None
+            box[v] = b
+        elif info[0] == "fn" and info[1] == "sqrt":
+            n, d = T.nf(info[2][0])
+            if not T.p_is_const(d):
+                return None
+            order.append(v)
+            pending.extend(T.p_vars(n))
+        else:
+            return None
+    import math
+    for _ in range(len(order) + 1):
+        for v in order:
+            if v in box:
+                continue
+            n, d = T.nf(T.ATOM_LIST[v][2][0])
+            if all(x in box for x in T.p_vars(n)):
+                lo, hi = poly_range(n, box)
+                hi = max(hi, Fraction(0))
+                # rational upper bound of sqrt(hi)
+                s = Fraction(math.isqrt(int(hi * 10**24)) + 1, 10**12)
+                box[v] = (Fraction(0), s)
+    if any(v not in box for v in order):
+        return None
+    return box
